@@ -456,7 +456,10 @@ func (cf *Frame) evalTargets1(src string, pre *State) ([]modTarget, error) {
 	if strings.HasPrefix(src, "arrays:") {
 		// every array with this element type (coarse): arrays:int
 		k := src[7:]
-		es := "Int"
+		es := Sort("Int")
+		if t := e.typeByKey(k); t != nil {
+			es = e.sortOf(t)
+		}
 		return []modTarget{{Comp: "A_" + san(k), Sort: arrSort(es), Kind: "whole"}}, nil
 	}
 	if src == "owner" {
